@@ -544,8 +544,36 @@ def ploop_shapes(prog, literal_in_loop_ok=False):
     return shapes
 
 
+def template_loop_around_parallel(rng):
+    """a loop around a Parallel block whose branches are called tasks, one of them with a counting loop of its own
+    followed by a last service (the counters of a task instance that is started again and again)"""
+    lim_outer = rng.choice([2, 2, 3])
+    lim_inner = rng.choice([1, 2, 2, 3, ["r", "m", "n"]])
+    worker_body = [{"k": "cloop", "var": "j", "limit": lim_inner,
+                    "body": [{"k": "svc", "name": "A", "ins": [], "outs": []}] + ([{"k": "svc", "name": "D", "ins": [], "outs": []}] if rng.random() < 0.3 else [])},
+                   {"k": "svc", "name": "B", "ins": [], "outs": []}]
+    if rng.random() < 0.3:
+        worker_body.insert(0, {"k": "svc", "name": "C", "ins": [], "outs": []})
+    helper_body = [{"k": "svc", "name": "C", "ins": [], "outs": []}] + ([{"k": "svc", "name": "D", "ins": [], "outs": []}] if rng.random() < 0.4 else [])
+    calls = [{"k": "call", "name": "t1", "ins": ["r"], "outs": []}, {"k": "call", "name": "t2", "ins": ["r"], "outs": []}]
+    if rng.random() < 0.3:
+        calls.append({"k": "call", "name": rng.choice(["t1", "t2"]), "ins": ["r"], "outs": []})
+    rng.shuffle(calls)
+    outer = ({"k": "cloop", "var": "k", "limit": lim_outer, "body": [{"k": "par", "calls": calls}]} if rng.random() < 0.7 else
+             {"k": "wloop", "e": ["r", "b"], "body": [{"k": "par", "calls": calls}]})
+    top = [{"k": "svc", "name": "G", "ins": [], "outs": [["r", "R"]]}, outer]
+    if rng.random() < 0.5:
+        top.append({"k": "svc", "name": "A", "ins": [], "outs": []})
+    tasks = [{"name": "productionTask", "ins": [], "outs": [], "body": top},
+             {"name": "t1", "ins": [["r", "R"]], "outs": [], "body": worker_body},
+             {"name": "t2", "ins": [["r", "R"]], "outs": [], "body": helper_body}]
+    return {"structs": HDR_STRUCTS, "tasks": tasks}
+
+
 def gen_program(rng, **kw):
     """a random valid program outside the known-finding shapes"""
+    if kw.pop("template", None) == "loop_around_parallel":
+        return template_loop_around_parallel(rng)
     for _ in range(200):
         prog = Gen(rng, **kw).program()
         if kw.get("any_shape") or not ploop_shapes(prog, literal_in_loop_ok=bool(kw.get("ploop_lit_in_loop"))):
